@@ -491,7 +491,7 @@ def match_known(module, entries, rec):
 
 
 def write_replay(prop, rec):
-    d = os.path.join(VERIF, "replays", prop)
+    d = os.path.join(VERIF if os.path.realpath(REPO) == "/repo" else "/root/scratch/other-tree", "replays", prop)
     os.makedirs(d, exist_ok=True)
     body = dict(rec)
     body["property"] = prop
@@ -603,12 +603,15 @@ def finish(ctx):
         "wall_s": round(time.time() - ctx.t0, 3),
         "violations": total_unknown,
     }
-    os.makedirs(os.path.join(VERIF, "evidence"), exist_ok=True)
-    tmp = os.path.join(VERIF, "evidence", ctx.prop + ".json.tmp")
+    # evidence under /verif/evidence is only ever written by runs against /repo itself
+    evdir = os.environ.get("VERIF_EVIDENCE_DIR") or (
+        os.path.join(VERIF, "evidence") if os.path.realpath(REPO) == "/repo" else "/root/scratch/evidence-other-tree")
+    os.makedirs(evdir, exist_ok=True)
+    tmp = os.path.join(evdir, ctx.prop + ".json.tmp")
     with open(tmp, "w") as f:
         json.dump(ev, f, indent=1, sort_keys=True, default=repr)
         f.write("\n")
-    os.replace(tmp, os.path.join(VERIF, "evidence", ctx.prop + ".json"))
+    os.replace(tmp, os.path.join(evdir, ctx.prop + ".json"))
     for l in lines:
         emit(l)
     emit("%s tier=%s seed=%d states=%d transitions=%d executions=%d distinct_outcomes=%d violations=%d known=%d exhaustive=%s wall=%.1fs" % (
